@@ -162,6 +162,15 @@ class Unsupported(Exception):
     pass
 
 
+# extension points (tie C, third extension): handlers registered by harness/translate/pysrc_rec.py.  Each is
+# consulted only for a spec that opts in (spec["rec_ext"]) and returns None when it does not apply, in which
+# case the translation goes on exactly as before.
+REC_EXPR_HOOKS = []       # (tr, e, env, want) -> (text, type) | None
+REC_STMT_HOOKS = []       # (tr, stmts, env, fin, ind) -> text | None
+REC_COERCE_HOOKS = []     # (tr, text, ty, want, e, env) -> text | None
+REC_FUNC_HOOKS = []       # (tr, fdef) -> fdef
+
+
 RESERVED = {"end": "end_", "at": "at_", "in": "in_", "fun": "fun_", "match": "match_", "with": "with_",
             "return": "return_", "then": "then_", "else": "else_", "let": "let_", "fix": "fix_",
             "Type": "Type_", "Set": "Set_", "Prop": "Prop_", "forall": "forall_", "exists": "exists_",
@@ -416,6 +425,10 @@ class Tr:
             return f"(nonempty {text})"
         if ty == "OIVL" and want == "B":
             return f"(negb (is_none {text}))"        # an Interval object is always truthy
+        for h in REC_COERCE_HOOKS:
+            r = h(self, text, ty, want, e, env)
+            if r is not None:
+                return r
         raise Unsupported(f"cannot use {ty} as {want} {what}")
 
     def unify(self, t1, t2):
@@ -437,6 +450,10 @@ class Tr:
             return self.text_exprs[ast.unparse(e)]
         if self.sums:
             r = self.sum_expr(e, env)
+            if r is not None:
+                return r
+        for h in REC_EXPR_HOOKS:
+            r = h(self, e, env, want)
             if r is not None:
                 return r
         if isinstance(e, ast.Constant):
@@ -1409,6 +1426,10 @@ class Tr:
             return self.block(rest, env, fin, ind)           # docstring
         if isinstance(s, ast.Pass):
             return self.block(rest, env, fin, ind)
+        for h in REC_STMT_HOOKS:
+            r = h(self, stmts, env, fin, ind)
+            if r is not None:
+                return r
         if isinstance(s, ast.With):
             if not all(ast.unparse(it.context_expr) in self.with_ok and it.optional_vars is None for it in s.items):
                 raise Unsupported("with")
@@ -2130,6 +2151,8 @@ class Tr:
         self.in_try = False
         self.last_raises = None
         kind = self.kind
+        for h in REC_FUNC_HOOKS:
+            fdef = h(self, fdef)
         a = fdef.args
         if a.vararg or a.kwarg:
             raise Unsupported("*args / **kwargs parameters")
@@ -2445,6 +2468,7 @@ def translate_all(repo: Path, specs, header=HEADER):
                     raise Unsupported(f"the module does not say `{line}`")
             tr = Tr(spec, known)
             tr.classdef = find_class(trees[path], spec["cls"]) if spec.get("cls") else None
+            tr.module = trees[path]
             for d in fdef.decorator_list:
                 if ast.unparse(d) not in ("override", "property"):
                     raise Unsupported(f"decorator {ast.unparse(d)[:40]}")
